@@ -22,7 +22,7 @@ def configs(ctx):
     props = ("NeverAcceptWrongX", "RepairFrame", "RepairRestores")
     return [
         F.Config("damage-2jobs", OPS, 4 if q else 5, "int", init_jobs=2, init_cache=(False, True), limit=5000 if q else 200000, properties=props),
-        F.Config("damage-3jobs", ["corrupt", "rename_dir", "check", "repair", "restart", "open_id", "readsp"], 4 if q else 5, "typed", init_jobs=3, init_cache=(False, True),
+        F.Config("damage-3jobs", ["corrupt", "corrupt_other", "rename_dir", "check", "repair", "restart", "open_id", "readsp"], 4 if q else 5, "typed", init_jobs=3, init_cache=(False, True),
                  limit=4000 if q else 200000, properties=props),
         F.Config("damage-then-use", OPS + ["init", "open_sp", "setkey", "docset"], 3 if q else 4, "mixed", init_jobs=2, init_cache=(True,), limit=3000 if q else 100000, properties=("NeverAcceptWrongX", "RepairFrame")),
         F.Config("long-random", OPS + ["open_sp", "init", "remove"], 0, "nested", init_jobs=3, init_cache=(False, True), handles=("h1", "h2"),
@@ -73,9 +73,23 @@ def byte_level(ctx):
         damages.append((jid, "delete", None))
         damages.append((jid, "other-json-list", b"[1, 2]"))
         damages.append((jid, "other-json-null", b"null"))
+        # valid JSON of an ==-equal value of another JSON type (1 -> 1.0 / true, 1.0 -> 1, true -> 1, -12 -> -12.0)
+        import re as _re
+        for m in _re.finditer(rb"(?<![\w.\"])(-?\d+\.\d+|-?\d+|true|false)(?![\w.\"])", blob):
+            tok = m.group(1)
+            alts = []
+            if tok in (b"true", b"false"):
+                alts = [b"1" if tok == b"true" else b"0", b"1.0" if tok == b"true" else b"0.0"]
+            elif b"." in tok:
+                alts = [tok.split(b".")[0]] if tok.endswith(b".0") else []
+            else:
+                alts = [tok + b".0"] + ([b"true"] if tok == b"1" else [b"false"] if tok == b"0" else [])
+            for alt in alts:
+                damages.append((jid, "typeswap@%d:%s" % (m.start(), alt.decode()), blob[:m.start()] + alt + blob[m.end():]))
         damages.append((jid, "other-job", open(os.path.join(root0, "workspace", jobs[(jobs.index(jid) + 1) % len(jobs)], "signac_statepoint.json"), "rb").read()))
     if ctx.quick:
-        damages = rnd.sample(damages, 700)
+        swaps = [d for d in damages if d[1].startswith("typeswap")]
+        damages = rnd.sample([d for d in damages if not d[1].startswith("typeswap")], 600) + swaps
     n_by_class = {}
     for with_cache in (False, True):
         for (jid, how, blob) in damages:
